@@ -11,6 +11,7 @@ import Driver.Ansi
 import Driver.Http
 import Driver.Term
 import Driver.Render
+import Driver.Key
 import Driver.Walk
 import Driver.Bind
 import Driver.Matcher
@@ -38,6 +39,7 @@ def dispatch (ctx : Driver.Algo.Ctx) (area op : String) (args impl : List String
   | "bind" => Driver.Bind.run op args impl
   | "matcher" => Driver.Matcher.run ctx op args impl
   | "preview" => Driver.Preview.run op args impl
+  | "key" => Driver.Key.run op args impl
   | _ => { model := "bad-area" }
 
 def processLine (ctx : Driver.Algo.Ctx) (line : String) : String :=
